@@ -82,6 +82,26 @@ func (I *inst) desc0() string {
 	return d
 }
 
+// indexClass: coarse class of an index state (part of the violation scenario; the exact state is in the detail).
+func indexClass(state string) string {
+	switch state {
+	case "memory", "immutable", "immutable+memory", "memory(others-immutable)", "memory(others-flushed)":
+		return "in-memory"
+	}
+	return "on-disk"
+}
+
+// dataClass: coarse class of the written data (part of the violation scenario).
+func (I *inst) dataClass() string {
+	switch {
+	case I.fill == 0:
+		return "plain"
+	case I.fill < 70000:
+		return "ids-across-65536"
+	}
+	return "three-containers"
+}
+
 func classOf(phase []int) string {
 	n1, n2 := 0, 0
 	for _, p := range phase {
@@ -284,6 +304,9 @@ func isTagKeyNotFound(err error) bool { return errors.Is(err, constants.ErrTagKe
 // evalInstance evaluates every condition (and the group-by sets on every distinct selected set) on one instance in its current state.
 func (r *runner) evalInstance(e *dbEnv, I *inst, round string) {
 	state := stateLabel(round, I.class)
+	dclass := I.dataClass()
+	evals0 := r.rep.Evaluations
+	defer func() { r.rep.Count("evaluations_in_state_"+state, r.rep.Evaluations-evals0) }()
 	full := I.allWritten()
 	nWritten := 0
 	for _, w := range I.written {
@@ -302,7 +325,7 @@ func (r *runner) evalInstance(e *dbEnv, I *inst, round string) {
 		if r.onlyCond >= 0 && ci != r.onlyCond {
 			continue
 		}
-		scen := "state=" + state + " kind=" + c.kind
+		scen := "index=" + indexClass(state) + " kind=" + c.kind + " data=" + dclass
 		missingKey := false
 		for k := range c.info.keys {
 			if !I.schema[k] {
@@ -463,7 +486,7 @@ func sortedKeysOf(m map[string]string) []string {
 }
 
 func (r *runner) evalGroupBy(e *dbEnv, I *inst, c *cond, sel []uint32, mask uint32, g []string, state string, full bool) {
-	scen := fmt.Sprintf("state=%s groupby=%d", state, len(g))
+	scen := fmt.Sprintf("index=%s groupby=%d data=%s", indexClass(state), len(g), I.dataClass())
 	gs := strings.Join(g, ",")
 	// model: selected series that have every grouping key must be returned with exactly their values
 	must := map[uint32][]string{}
@@ -602,7 +625,7 @@ func panicSite() string {
 	for _, ln := range strings.Split(string(debug.Stack()), "\n") {
 		ln = strings.TrimSpace(ln)
 		if strings.HasPrefix(ln, "github.com/lindb/lindb/") && !strings.Contains(ln, "/verif_h/") && !strings.Contains(ln, "/internal/v") {
-			if i := strings.Index(ln, "("); i > 0 {
+			if i := strings.LastIndex(ln, "("); i > 0 {
 				ln = ln[:i]
 			}
 			return strings.TrimPrefix(ln, "github.com/lindb/lindb/")
